@@ -20,8 +20,6 @@ import (
 	"github.com/yandex/mysync/internal/verif/vt"
 )
 
-func init() { verifChecks["C20"] = checkC20 }
-
 type c20Case struct {
 	Tree    []string `json:"tree_mutations"`
 	Servers string   `json:"servers"`
@@ -59,110 +57,9 @@ func c20Run(r *vt.Run, c c20Case) {
 		r.Violate("C20/"+clause, detail+fmt.Sprintf("; case %+v", c), c)
 	}
 	Bubble(r.T, spec, func(h *H) {
-		h.BuildConverged()
+		c20Prepare(h, c)
 		w := h.W
 		w.LogStmts = r.Replay != nil
-		z := w.ZK
-		for _, m := range c.Tree {
-			switch m {
-			case "master=gone":
-				z.Put(vns+"/master", `"gone"`)
-			case "master=empty":
-				z.Put(vns+"/master", `""`)
-			case "master:absent":
-				z.Del(vns + "/master")
-			case "master:malformed":
-				z.Put(vns+"/master", `{{`)
-			case "master=h2":
-				z.Put(vns+"/master", `"h2"`)
-			case "ha:-h3":
-				z.Del(vns + "/ha_nodes/h3")
-			case "ha:+ghost":
-				z.Put(vns+"/ha_nodes/ghost", `{"priority":5}`)
-			case "ha:empty":
-				z.Del(vns + "/ha_nodes")
-				z.Put(vns+"/ha_nodes", "")
-			case "ha:+h1-only":
-				z.Del(vns + "/ha_nodes/h2")
-				z.Del(vns + "/ha_nodes/h3")
-			case "cascade:c1->h2":
-			case "cascade:c1->gone":
-				z.Put(vns+"/cascade_nodes/c1", `{"stream_from":"gone"}`)
-			case "cascade:c1->c1":
-				z.Put(vns+"/cascade_nodes/c1", `{"stream_from":"c1"}`)
-			case "cascade:c1->empty":
-				z.Put(vns+"/cascade_nodes/c1", `{"stream_from":""}`)
-			case "cascade:c1->malformed":
-				z.Put(vns+"/cascade_nodes/c1", `[1,`)
-			case "active:+gone":
-				z.Put(vns+"/active_nodes", `["gone","h1","h2","h3"]`)
-			case "active:malformed":
-				z.Put(vns+"/active_nodes", `{"x":`)
-			case "active:absent":
-				z.Del(vns + "/active_nodes")
-			case "active:empty":
-				z.Put(vns+"/active_nodes", `[]`)
-			case "recovery:gone":
-				z.Put(vns+"/recovery/gone", "null")
-			case "recovery:h2":
-				z.Put(vns+"/recovery/h2", "null")
-			case "recovery:h1":
-				z.Put(vns+"/recovery/h1", "null")
-			case "switch:to-gone":
-				z.Put(vns+"/switch", jsonStr(Switchover{To: "gone", Cause: CauseWorker, InitiatedBy: "w", InitiatedAt: time.Now(), MasterTransition: SwitchoverTransition}))
-			case "switch:from-gone":
-				z.Put(vns+"/switch", jsonStr(Switchover{From: "gone", Cause: CauseWorker, InitiatedBy: "w", InitiatedAt: time.Now(), MasterTransition: SwitchoverTransition}))
-			case "switch:to-h2":
-				z.Put(vns+"/switch", jsonStr(Switchover{To: "h2", Cause: CauseWorker, InitiatedBy: "w", InitiatedAt: time.Now(), MasterTransition: SwitchoverTransition}))
-			case "switch:malformed":
-				z.Put(vns+"/switch", `{"to": 5`)
-			case "switch:empty-object":
-				z.Put(vns+"/switch", `{}`)
-			case "maintenance:malformed":
-				z.Put(vns+"/maintenance", `nope`)
-			case "maintenance:full":
-				z.Put(vns+"/maintenance", jsonStr(Maintenance{InitiatedBy: "op", InitiatedAt: time.Now(), Mode: FullMode}))
-			case "optimization:gone":
-				z.Put(vns+"/optimization_nodes/gone", `{"status":""}`)
-			case "last_switch:malformed":
-				z.Put(vns+"/last_switch", `[`)
-			case "resetup:malformed-h2":
-				z.Put(vns+"/resetup_status/h2", `"x"`)
-			case "last_shutdown:malformed":
-				z.Put(vns+"/last_shutdown_node_time", `"yesterday"`)
-			}
-		}
-		s1, s2 := w.Servers["h1"], w.Servers["h2"]
-		switch c.Servers {
-		case "master-down":
-			s1.Crash(w)
-		case "h2-down":
-			s2.Crash(w)
-		case "h2-hung":
-			s2.Hung = true
-		case "cycle":
-			// the recorded master is a replica of a replica (operator mistake outside maintenance)
-			s1.MakeReplica("h2")
-		case "all-down":
-			for _, s := range w.Servers {
-				s.Crash(w)
-			}
-		case "h2-no-plugin":
-			s2.PluginLoaded = false
-		case "h2-old-version":
-			s2.Version = [3]int{5, 7, 44}
-		}
-		h.InjectHealth()
-		for _, m := range c.Tree {
-			switch m {
-			case "health:none":
-				z.Del(vns + "/health")
-			case "health:-h1":
-				z.Del(vns + "/health/h1")
-			case "health:malformed-h1":
-				z.Put(vns+"/health/h1", `{"ping_ok": "yes"`)
-			}
-		}
 		a1 := h.Start("h1")
 		a2 := h.Start("h2")
 		var g2, db2 int
@@ -213,6 +110,113 @@ func c20Run(r *vt.Run, c c20Case) {
 			}
 		}
 	})
+}
+
+// c20Prepare builds the converged cluster and applies the case's tree mutations and server state.
+func c20Prepare(h *H, c c20Case) {
+	h.BuildConverged()
+	w := h.W
+	z := w.ZK
+	for _, m := range c.Tree {
+		switch m {
+		case "master=gone":
+			z.Put(vns+"/master", `"gone"`)
+		case "master=empty":
+			z.Put(vns+"/master", `""`)
+		case "master:absent":
+			z.Del(vns + "/master")
+		case "master:malformed":
+			z.Put(vns+"/master", `{{`)
+		case "master=h2":
+			z.Put(vns+"/master", `"h2"`)
+		case "ha:-h3":
+			z.Del(vns + "/ha_nodes/h3")
+		case "ha:+ghost":
+			z.Put(vns+"/ha_nodes/ghost", `{"priority":5}`)
+		case "ha:empty":
+			z.Del(vns + "/ha_nodes")
+			z.Put(vns+"/ha_nodes", "")
+		case "ha:+h1-only":
+			z.Del(vns + "/ha_nodes/h2")
+			z.Del(vns + "/ha_nodes/h3")
+		case "cascade:c1->h2":
+		case "cascade:c1->gone":
+			z.Put(vns+"/cascade_nodes/c1", `{"stream_from":"gone"}`)
+		case "cascade:c1->c1":
+			z.Put(vns+"/cascade_nodes/c1", `{"stream_from":"c1"}`)
+		case "cascade:c1->empty":
+			z.Put(vns+"/cascade_nodes/c1", `{"stream_from":""}`)
+		case "cascade:c1->malformed":
+			z.Put(vns+"/cascade_nodes/c1", `[1,`)
+		case "active:+gone":
+			z.Put(vns+"/active_nodes", `["gone","h1","h2","h3"]`)
+		case "active:malformed":
+			z.Put(vns+"/active_nodes", `{"x":`)
+		case "active:absent":
+			z.Del(vns + "/active_nodes")
+		case "active:empty":
+			z.Put(vns+"/active_nodes", `[]`)
+		case "recovery:gone":
+			z.Put(vns+"/recovery/gone", "null")
+		case "recovery:h2":
+			z.Put(vns+"/recovery/h2", "null")
+		case "recovery:h1":
+			z.Put(vns+"/recovery/h1", "null")
+		case "switch:to-gone":
+			z.Put(vns+"/switch", jsonStr(Switchover{To: "gone", Cause: CauseWorker, InitiatedBy: "w", InitiatedAt: time.Now(), MasterTransition: SwitchoverTransition}))
+		case "switch:from-gone":
+			z.Put(vns+"/switch", jsonStr(Switchover{From: "gone", Cause: CauseWorker, InitiatedBy: "w", InitiatedAt: time.Now(), MasterTransition: SwitchoverTransition}))
+		case "switch:to-h2":
+			z.Put(vns+"/switch", jsonStr(Switchover{To: "h2", Cause: CauseWorker, InitiatedBy: "w", InitiatedAt: time.Now(), MasterTransition: SwitchoverTransition}))
+		case "switch:malformed":
+			z.Put(vns+"/switch", `{"to": 5`)
+		case "switch:empty-object":
+			z.Put(vns+"/switch", `{}`)
+		case "maintenance:malformed":
+			z.Put(vns+"/maintenance", `nope`)
+		case "maintenance:full":
+			z.Put(vns+"/maintenance", jsonStr(Maintenance{InitiatedBy: "op", InitiatedAt: time.Now(), Mode: FullMode}))
+		case "optimization:gone":
+			z.Put(vns+"/optimization_nodes/gone", `{"status":""}`)
+		case "last_switch:malformed":
+			z.Put(vns+"/last_switch", `[`)
+		case "resetup:malformed-h2":
+			z.Put(vns+"/resetup_status/h2", `"x"`)
+		case "last_shutdown:malformed":
+			z.Put(vns+"/last_shutdown_node_time", `"yesterday"`)
+		}
+	}
+	s1, s2 := w.Servers["h1"], w.Servers["h2"]
+	switch c.Servers {
+	case "master-down":
+		s1.Crash(w)
+	case "h2-down":
+		s2.Crash(w)
+	case "h2-hung":
+		s2.Hung = true
+	case "cycle":
+		// the recorded master is a replica of a replica (operator mistake outside maintenance)
+		s1.MakeReplica("h2")
+	case "all-down":
+		for _, s := range w.Servers {
+			s.Crash(w)
+		}
+	case "h2-no-plugin":
+		s2.PluginLoaded = false
+	case "h2-old-version":
+		s2.Version = [3]int{5, 7, 44}
+	}
+	h.InjectHealth()
+	for _, m := range c.Tree {
+		switch m {
+		case "health:none":
+			z.Del(vns + "/health")
+		case "health:-h1":
+			z.Del(vns + "/health/h1")
+		case "health:malformed-h1":
+			z.Put(vns+"/health/h1", `{"ping_ok": "yes"`)
+		}
+	}
 }
 
 // bubbleGoroutines counts the goroutines that belong to a synctest bubble (the runtime marks them
